@@ -47,7 +47,8 @@ def e0 : EvL2 := { imm := [], minq := 32, tq := none, socks := none, rp := (0, 4
 /-! a case as text: the operation lines, `pmodel af`'s lines (`afPrinted`), `pmodel afmon`'s verdicts on their L1 parts -/
 def caseText : List String :=
   ["failat 5", "h_init", "h_add 5 7", "h_add 3 2", "h_add 5 1", "h_min", "reg_imm 7 3", "reg_tm 8 100", "reg_net 2 4 0",
-   "reg_net 9 4 0", "h_delmin", "run", "clock 1000", "run", "cancel_net 4 0", "cancel_net 4 0", "cancel_tm 8", "h_free", "end"]
+   "reg_net 9 4 0", "h_delmin", "run", "clock 1000", "run", "cancel_net 4 0", "cancel_net 4 0", "cancel_tm 8", "h_free",
+   "h_create 4:1,2:-3,6:1", "h_min", "h_create 4:1,2:-3,4:0", "h_create -", "h_add 1 1", "end"]
 
 def caseLines : List (List String) := caseText.map loopToks
 #guard (caseLines.mapM Af.parseOp).isSome
@@ -55,6 +56,16 @@ def caseLines : List (List String) := caseText.map loopToks
 #guard match caseLines.mapM Af.parseOp with
   | some ops => (runOps {} ops).all fun r => agrees r.2
   | none => false
+-- the element list of `h_create`: `<id>:<key>` separated by `,`, `-` for none; anything else is not an op
+#guard Af.parseOp (loopToks "h_create 5:7,3:-2,9:7") == some (.hCreate [(5, 7), (3, -2), (9, 7)])
+#guard Af.parseOp (loopToks "h_create -") == some (.hCreate []) && Af.parseOp (loopToks "h_create 4095:0") == some (.hCreate [(4095, 0)])
+#guard [ "h_create", "h_create 5", "h_create 5:7,", "h_create 5:7:1", "h_create 5:x", "h_create -1:2", "h_create 5:7 3:2"].all
+  fun l => (Af.parseOp (loopToks l)).isNone
+-- `h_create` under a refusing schedule: `fail rf=1` is accepted, `fail rf=0` and `ok rf=1` are not
+#guard (Afmon.step {} (loopToks "h_create 5:7,3:2") (loopToks "fail rf=1")).2 = "ok"
+#guard (Afmon.step {} (loopToks "h_create 5:7,3:2") (loopToks "fail rf=0")).2 ≠ "ok"
+#guard (Afmon.step {} (loopToks "h_create 5:7,3:2") (loopToks "ok rf=1")).2 ≠ "ok"
+#guard (Afmon.step (Afmon.step {} (loopToks "h_create 5:7,3:2") (loopToks "ok rf=0")).1 ["h_min"] (loopToks "ok rf=0 id=5")).2 ≠ "ok"
 -- a perturbed answer is rejected: a failure without a refused request, a wrong minimum
 #guard (Afmon.step {} (loopToks "h_init") (loopToks "fail rf=0")).2 ≠ "ok"
 #guard (Afmon.step (Afmon.step (Afmon.step {} ["h_init"] ["ok", "rf=0"]).1 (loopToks "h_add 5 7") ["ok", "rf=0"]).1
